@@ -8,7 +8,9 @@ from vf import iomodels as im
 HEX = "0123456789ABCDEF"
 MSGS = ["Power on complete", "PS%d - Faults Cleared", "level = %c%c", "value 0x%02X and %d", "pct 100%% done", "%s string arg",
         "three %d %d %d", "P1 IO Bay VRM in \"N-Mode\"", "  padded message  ", "bad spec %q here", "%x %X %o", "trailing %",
-        "%5d|%-4d|", "quote \" only", "four %d %d %d %d", "five %d %d %d %d %d", "%c", "no args at all"]
+        "%5d|%-4d|", "quote \" only", "four %d %d %d %d", "five %d %d %d %d %d", "%c", "no args at all",
+        # a literal percent sign directly followed by letters that would be a C length modifier + conversion
+        "PWM now %d%%total", "load %d%%time-averaged", "%d%%zone %d", "%d%%high limit, %d%%low limit", "%d%%peak", "100%%lld done %d"]
 
 
 def gen_pattern(rng, base=None):
@@ -112,7 +114,8 @@ def gen_ilog(rng, table, n=None):
 
 # -- trace -------------------------------------------------------------------
 TRACE_MSGS = ["I> ADT7470: trace_level = %u", "no args", "two %d %d", "five %d %d %d %d %d", "six %d %d %d %d %d %d", "hex 0x%08X",
-              "str %s", "chr %c", "pct %% only", "bad %q", "E> fail rc=%d at %x", "a||b inside message %d", "  spaced  "]
+              "str %s", "chr %c", "pct %% only", "bad %q", "E> fail rc=%d at %x", "a||b inside message %d", "  spaced  ",
+              "supply %u at %u%%load", "%u%%high limit, %u%%low limit", "%u%%peak, %u%%avg", "%d%%total %d%%zone", "duty %u%%time"]
 
 
 def gen_strings(rng, n=None):
